@@ -168,7 +168,7 @@ def check_grid(api, ob, fail, drift, grid=None):
     return g
 
 
-def check_derived(api, ob, g, fail):
+def check_derived(api, ob, g, fail, big=False):
     """refine, barycentric refinement, grid_from_segments, union."""
     from bempp_cl.api.grid.grid import grid_from_segments, union
 
@@ -216,6 +216,22 @@ def check_derived(api, ob, g, fail):
             fail("grid_from_segments", "segments %s: extracted grid differs" % (segs,))
         if sg.number_of_vertices != len(set(sg.elements.ravel().tolist())):
             fail("grid_from_segments", "unused vertices kept")
+    # the same on a grid with hundreds of vertices (three nested refinements): vertex numbers beyond the range in which small integer
+    # sets happen to iterate in ascending order; elements of the extracted grid keep corner coordinates, orientation and domain index
+    if big and g.number_of_elements >= 4:
+        r3 = g.refine().refine().refine()
+        base3 = tri_multiset(r3, 8)
+        doms3 = sorted(set(int(d_) for d_ in r3.domain_indices))
+        for segs in [(d_,) for d_ in doms3[:3]]:
+            sg = grid_from_segments(r3, list(segs))
+            want = Counter({k: v for k, v in base3.items() if k[1] in segs})
+            if base3 is None or tri_multiset(sg, 8) != want:
+                fail("grid_from_segments", "segments %s of the three times refined grid (%d vertices): extracted grid differs" % (segs, r3.number_of_vertices))
+            if sg.number_of_vertices != len(set(sg.elements.ravel().tolist())):
+                fail("grid_from_segments", "unused vertices kept (refined grid)")
+        vn = index_list(r3.vertex_neighbors, r3.number_of_vertices) if r3.vertex_neighbors.indexptr.shape[0] == r3.number_of_vertices + 1 else None
+        if vn is None:
+            fail("vertex_neighbors", "vertex_neighbors of the refined grid has %d index pointers for %d vertices" % (r3.vertex_neighbors.indexptr.shape[0], r3.number_of_vertices))
     # union with itself shifted, second copy with swapped normals
     shift = np.array([[20.0], [0.0], [0.0]])
     g2 = api.Grid(g.vertices + shift, g.elements, g.domain_indices)
